@@ -325,6 +325,11 @@ def main(argv=None):
         reported = []
         for key, recs in new_groups[:40]:
             path = write_replay(prop, seed, recs[0])
+            if recs[0].get("no_confirm"):
+                # observed on the real process pool (OS scheduling cannot be replayed): the
+                # check itself re-ran the case and saw it again before recording it
+                reported.append(path)
+                continue
             if not args.no_confirm and not confirm_replay(prop, path):
                 raise HarnessError(f"violation {path} did not reproduce in a fresh interpreter")
             reported.append(path)
